@@ -14,6 +14,7 @@ import numpy as np
 from .. import boot  # noqa: F401
 from .. import cfg as C
 from .. import ref as R
+from .. import work
 from ..gen import SpecProblem, make_spec, rng_for
 
 LEVEL = "exploration"
@@ -143,6 +144,14 @@ def run_case(case):
                     except StepSolverError:
                         bump("step_solver_error_%s" % ls)
                         continue
+                    except Exception as ex:
+                        if not work.raised_in_repo(ex):
+                            raise
+                        viol.append({"what": "%s/%s/%s step raised %s: %s (%s)" % (ss, ls, nt, type(ex).__name__, str(ex)[:80],
+                                                                                  work.repo_frame(ex)),
+                                     "key": dict(key, kind="exception", exc=type(ex).__name__, where=work.repo_frame(ex)),
+                                     "detail": {"fam": fam, "gseed": gseed, "fmt": fmt}})
+                        continue
                     xg = np.asarray(res.iterate.x, dtype=float)
                     yg = np.asarray(res.iterate.y, dtype=float)
                     results[(ss, ls, nt)] = (xg, yg)
@@ -187,6 +196,48 @@ def run_case(case):
                                                  "(allowance %.3e, cond of solver matrix %.1e)" % (ss, ls, nt, e2, lim2, condM),
                                          "key": dict(key, kind="iterative-vs-lu"),
                                          "detail": {"fam": fam, "gseed": gseed, "dt": dt, "rho": rho}})
+            # one step-solver object serving two active sets in turn (as the active-set Newton variant uses it: the
+            # derivatives are set once, the active set changes between solves)
+            if n:
+                from pygradflow.step.solver import step_solver as make_step_solver
+
+                A1 = rng.random(size=n) < 0.4
+                A2 = rng.random(size=n) < 0.4
+                if np.array_equal(A1, A2):
+                    A2[int(rng.integers(0, n))] ^= True
+                try:
+                    xr2, yr2, s2, cond2 = R.newton_step(D, xh, yh, xh, yh, rho, dt, A2)
+                except np.linalg.LinAlgError:
+                    cond2 = np.inf
+                if np.isfinite(cond2) and cond2 <= 1e6:
+                    sn2 = max(float(np.max(np.abs(s2))) if s2.size else 0.0, 1e-300)
+                    for ss in C.STEP_SOLVER:
+                        cfgd = {"step_solver": ss, "linear": "LU", "newton": "ActiveSet", "scaling": sc}
+                        prob = SpecProblem(spec, fmt=fmt)
+                        params = C.make_params(cfgd, spec, weights=weights)
+                        T = Transformation(prob, params)
+                        it = Iterate(T.trans_problem, params, xh, yh, T.evaluator)
+                        try:
+                            so = make_step_solver(T.trans_problem, params, it, dt, rho)
+                            so.update_derivs(it)
+                            so.update_active_set(np.copy(A1))
+                            so.solve(it)
+                            so.update_active_set(np.copy(A2))
+                            r2 = so.solve(it)
+                        except StepSolverError:
+                            bump("reuse_step_solver_error")
+                            continue
+                        err2 = max(float(np.max(np.abs(np.asarray(r2.iterate.x, dtype=float) - xr2))),
+                                   float(np.max(np.abs(np.asarray(r2.iterate.y, dtype=float) - yr2))) if m else 0.0)
+                        bump("reused_step_solver_second_active_set")
+                        lim2r = LU_TOL * cond2 * sn2
+                        mx["reuse_err_over_allowance"] = max(mx.get("reuse_err_over_allowance", 0.0), err2 / lim2r)
+                        if not err2 <= lim2r:
+                            viol.append({"what": "%s/LU: a step-solver object that served another active set before returns a "
+                                                 "step that differs from the dense reference Newton step by %.3e "
+                                                 "(|step| %.3e, cond %.1e)" % (ss, err2, sn2, cond2),
+                                         "key": {"step_solver": ss, "linear": "LU", "kind": "reused-object-step"},
+                                         "detail": {"fam": fam, "gseed": gseed, "dt": dt, "rho": rho, "A1": A1, "A2": A2}})
             # Newton variants take the same first step (bitwise per step solver / linear solver)
             for ss, ls in COMBOS:
                 got = [results.get((ss, ls, nt)) for nt in NEWTONS]
@@ -246,13 +297,13 @@ def run_case(case):
 def finalize(agg, tier):
     return {
         "rule": "generated NLP (violated nonlinear rows), QP and degenerate specs x in-box points (25% of components on a "
-                "bound) x multipliers 1e-1..1e1 x dt, rho in 1e-3..1e2 x look-ahead tau (None, or 1e-3..10 on 40% of the points); every point is run through all 27 step-solver x "
+                "bound) x multipliers 1e-1..1e1 x dt, rho in 1e-3..1e2 x look-ahead tau (None, or 1e-3..10 on 40% of the points); every point is also put to one step-solver object per step-solver type that serves two random active sets in turn with the derivatives set once; every point is run through all 27 step-solver x "
                 "linear-solver x Newton-variant combinations; points whose reference Jacobian has cond > 1e6 or whose "
                 "activity test is within rounding of its threshold are skipped and counted; non-trivial = point with a "
                 "reference step that was compared; distinct by spec seed",
         "floors": {"points": 300, "points_nonlinear_rows_violated": 60, "points_active_set_nonempty": 100,
                    "variant_triples_compared": 2000, "qp_one_step_exact_checked": 50,
-                   "points_with_tau": 80, "points_tau_changes_active_set": 15,
+                   "points_with_tau": 80, "reused_step_solver_second_active_set": 800, "points_tau_changes_active_set": 15,
                    "steps_Standard_LU": 500, "steps_Extended_LU": 500, "steps_Symmetric_LU": 500,
                    "steps_Asymmetric_LU": 500, "steps_Symmetric_MINRES": 300, "steps_Asymmetric_GMRES": 300},
         "assumptions": ["LU: forward error <= 1e-8 * cond(F') * |step|; iterative solvers are compared with the LU step "
